@@ -350,6 +350,14 @@ def _one_horiz_case(c):
         bad(f'{name}:leading_axis', 'result with a leading axis differs from the 2-d call')
     if name == 'nearest' and not np.all(np.isin(got[1], label)):
       bad('nearest:selection', f'output contains values that are not source values: {got[1].tolist()}')
+    if name == 'nearest' and not c['equal'] and c.get('shift', 99) != 99:
+      # the same nodes a whole number of cells apart: target node i is source node i + shift
+      mask = np.array(c['nearmask'], bool)
+      want = np.roll(label, -int(c['shift']), axis=0)
+      d = np.abs(got[1] - want) <= 4 * EPS * np.abs(want)
+      if not np.all(d | ~mask):
+        i = tuple(int(v) for v in np.argwhere(~d & mask)[0])
+        bad('nearest:shifted_twin', f'grids {c["src"]} -> {c["tgt"]}: node {i} has {got[1][i]!r}, the coincident source value is {want[i]!r}')
     if c['equal']:
       mask = np.ones(tshape, bool) if name == 'bilinear' else np.array(c['nearmask'], bool)
       d = np.abs(got[1] - label) <= 4 * EPS * np.abs(label)
